@@ -27,7 +27,7 @@ typedef struct {
 	int nsteps; step_t st[MAXSTEP];
 } script_t;
 
-static script_t SCR[16]; static int NSCR;
+static script_t SCR[24]; static int NSCR;
 static uint64_t (*BASE)[MAXSTEP];	/* baseline per-step trace hashes, shared memory */
 static int st_states, st_trans, st_exec, st_dn, st_pairs, st_triples;
 
@@ -174,6 +174,8 @@ static void build_catalogue (void)
 	s = new_script ("2d-encoder", 5, OF_ENCODER, 4, 4, 6, 0, 0, 0, 0); add (s, S_CREATE, 0); add (s, S_SET, 0); add (s, S_BUILD, 4); add (s, S_BUILD, 5); add (s, S_BUILD, 6); add (s, S_BUILD, 7); add (s, S_RELEASE, 0);
 	s = new_script ("rs28-encoder-verbose", 1, OF_ENCODER, 2, 2, 5, 8, 0, 0, 2); add (s, S_CREATE, 0); add (s, S_SET, 0); add (s, S_BUILD, 2); add (s, S_BUILD, 3); add (s, S_RELEASE, 0);
 	s = new_script ("ldpc-decoder-same-seed-as-encoder", 3, OF_DECODER, 6, 4, 9, 0, 3, 5, 1); add (s, S_CREATE, 0); add (s, S_SET, 0); add (s, S_DWS, 9); add (s, S_DWS, 8); add (s, S_DWS, 7); add (s, S_FIN, 0); add (s, S_QUERY, 0); add (s, S_RELEASE, 0);
+	s = new_script ("ldpc-encoder-maxseed", 3, OF_ENCODER, 5, 4, 6, 0, 3, 2147483646, 0); add (s, S_CREATE, 0); add (s, S_SET, 0); add (s, S_BUILD, 5); add (s, S_BUILD, 6); add (s, S_BUILD, 7); add (s, S_RELEASE, 0);
+	s = new_script ("rs2m4-encoder-same-kr-as-m8", 2, OF_ENCODER, 4, 3, 7, 4, 0, 0, 0); add (s, S_CREATE, 0); add (s, S_SET, 0); add (s, S_BUILD, 4); add (s, S_BUILD, 6); add (s, S_RELEASE, 0);
 	s = new_script ("ldpc-rejected-seed", 3, OF_ENCODER, 5, 4, 4, 0, 3, 0, 0); add (s, S_CREATE, 0); add (s, S_SET, 0); add (s, S_RELEASE, 0);
 }
 
@@ -269,20 +271,20 @@ int main (int argc, char **argv)
 	st_states = vf_stat_id ("states"); st_trans = vf_stat_id ("transitions"); st_exec = vf_stat_id ("executions"); st_dn = vf_stat_id ("distinct_nontrivial");
 	st_pairs = vf_stat_id ("pairs"); st_triples = vf_stat_id ("triples");
 	build_catalogue ();
-	BASE = mmap (NULL, sizeof (uint64_t) * MAXSTEP * 16, PROT_READ | PROT_WRITE, MAP_SHARED | MAP_ANONYMOUS, -1, 0);
+	BASE = mmap (NULL, sizeof (uint64_t) * MAXSTEP * 24, PROT_READ | PROT_WRITE, MAP_SHARED | MAP_ANONYMOUS, -1, 0);
 	for (a = 0; a < NSCR; a++) {
 		int rc = vf_run_isolated (baseline_child, a, NULL, 60, NULL, NULL, 0);
 		if (rc != 0) { vf_viol ("C12", "kind=script-alone-crashes", "scripts=%d schedule=%s", a, "0000000"); }
 	}
 	/* a second baseline in the same pristine way must agree (determinism of the baseline itself) */
 	{
-		uint64_t keep[16][MAXSTEP];
+		uint64_t keep[24][MAXSTEP];
 		memcpy (keep, BASE, sizeof keep);
 		for (a = 0; a < NSCR; a++) { vf_run_isolated (baseline_child, a, NULL, 60, NULL, NULL, 0); if (memcmp (keep[a], BASE[a], sizeof keep[a])) vf_viol ("MACHINERY", "kind=baseline-not-deterministic", "script %s", SCR[a].name); }
 	}
 	g_maxswitch = (int) vf_opt_long ("switches", thorough ? 5 : 3);
 	if (vf_replay_case ()) { vf_pool_run (1, item_replay, NULL, 120); vf_finish (); return 0; }
-	CB = malloc (sizeof (combo_t) * 4096);
+	CB = malloc (sizeof (combo_t) * 8192);
 	for (a = 0; a < NSCR; a++) for (b = a; b < NSCR; b++) { CB[NCB].ns = 2; CB[NCB].sc[0] = a; CB[NCB].sc[1] = b; NCB++; }
 	for (a = 0; a < NSCR; a++) for (b = a; b < NSCR; b++) for (c = b; c < NSCR; c++) { if (!thorough && a == b && b == c) continue; CB[NCB].ns = 3; CB[NCB].sc[0] = a; CB[NCB].sc[1] = b; CB[NCB].sc[2] = c; NCB++; }
 	vf_note ("%d scripts, %ld combinations (pairs: all interleavings; triples: <= %d context switches)", NSCR, NCB, g_maxswitch);
